@@ -39,11 +39,15 @@ MANIFEST = {
              "permutations (the heuristic triangularize_inner_block is an arbitrary permutation input) the blocks partition rows and columns, are "
              "square, have no incidence in a column of a later block, every diagonal block has a perfect matching, prefetched singleton blocks have "
              "exactly one unknown given the earlier ones, blaze never raises; the same at the level of ids after Block sorting (blaze_ids_valid), and "
-             "blaze commutes with every re-labelling of the ids for every matrix whatsoever (blaze_relabel_equivariant); split_into_blocks puts a qid in "
-             "exactly one block iff it can be exogenized and is not exogenized by the plan or is endogenized by it. Sequential models: sequentialize "
-             "never returns a non-permutation and never drops an equation (all models); with pairwise distinct LHS names the incidence matrix is square "
-             "with full diagonal and sequentialize returns a valid order iff one exists, else raises leaving the state unchanged, after any history "
-             "of calls; the known finding about repeated LHS names is itself machine-checked on the model (three counterexamples by kernel evaluation). "
+             "blaze commutes with every re-labelling of the ids for every matrix whatsoever (blaze_relabel_equivariant); the merge order of prefetch "
+             "across recursion rounds is pinned (prefetch_merge_order, with a 4x4 witness that the other order is invalid); when the steady system is "
+             "square with a perfect matching split_into_blocks puts a qid in exactly one block iff it can be exogenized and is not exogenized by the "
+             "plan or is endogenized by it -- and when a plan leaves more unknowns than equations no list of square blocks can partition both "
+             "(split_into_blocks_not_square_not_valid: nothing is claimed there). Sequential models, ALL of them (repeated LHS names included): "
+             "sequentialize never returns a non-permutation, never drops an equation, and an error leaves the state unchanged; lags and leads do not "
+             "count; with pairwise distinct LHS names the incidence matrix is square with full diagonal and sequentialize returns a valid order iff one "
+             "exists (an equation reading its own LHS at zero shift is not counted as a dependency), after any history of calls; the known finding "
+             "about repeated LHS names is itself machine-checked on the model (three counterexamples by kernel evaluation). "
              "Tie: staged exact correspondence with blazer.prefetch / triangularize_inner_block / blaze(return_info=True) -- exhaustive over all boolean "
              "matrices n<=3 (quick) / n<=4 (thorough, 2^16 matrices, those with a perfect matching under two labellings; the others and non-square "
              "shapes feed the malformed stream), sampled block-structured, triangular, dense, banded, permuted matrices 5<=n<=40, re-labelling "
@@ -823,6 +827,14 @@ def gen_simw(rng):
             bang[i] = [bool(rng.chance(0.5)) for _ in range(nt)]
             bang[i][rng.randint(0, nt - 1)] = True
     case["bang"] = bang
+    # a plan that makes the steady system NON-square: one more parameter endogenized than variables exogenized, and a variable fixed in
+    # level and change (which does not take it out of the unknowns). Outside the C16 statement (square matrices with a perfect matching;
+    # recorded under C05 as split-blocks-fully-fixed-quantity): compared with the model stage by stage, never judged by the oracle.
+    case["extra_endo"] = None
+    free = [j for j in range(npar) if j not in endo]
+    if free and rng.chance(0.15):
+        case["extra_endo"] = rng.choice(free)
+        case["fix"] = rng.randint(0, nt - 1)
     return case
 
 
@@ -833,9 +845,11 @@ def simw_layout(case):
     T, M, Y = unb(case["T"], (nt, nt)), unb(case["M"], (nm, nt)), unb(case["Y"], (nm, nm))
     exo, endo = case["exo"], case["endo"]
     tcols = [f"t{j}" for j in range(nt) if j not in exo] + [f"p{j}" for j in endo]     # transition-block unknowns, qid order
-    unknowns = [n for n in tcols if n[0] == "t"] + [f"y{j}" for j in range(nm)] + [n for n in tcols if n[0] == "p"]
+    extra = case.get("extra_endo")
+    pcols = sorted([j for j in endo] + ([extra] if extra is not None else []))
+    unknowns = [n for n in tcols if n[0] == "t"] + [f"y{j}" for j in range(nm)] + [f"p{j}" for j in pcols]
     col = {name: k for k, name in enumerate(unknowns)}
-    im = np.zeros((nt + nm, nt + nm), dtype=bool)
+    im = np.zeros((nt + nm, len(unknowns)), dtype=bool)
     shifted = lambda name, s: name + ("" if s == 0 or name[0] != "t" else "[%+d]" % s)
     teqs, meqs, steady_texts = [], [], []
     bang = case.get("bang") or [None] * nt
@@ -863,6 +877,8 @@ def simw_layout(case):
             for j in range(npar):
                 if j not in endo and case["extra_par"][i][j]:
                     terms.append(f"p{j}")
+                    if j == extra:
+                        im[i, col[f"p{j}"]] = True
         steady = "0 = " + " + ".join(terms + [f"{i + 1}.25"])
         steady_texts.append(steady)
         if i < nt and bang[i]:
@@ -935,7 +951,51 @@ def simw_second_way(ctx: Ctx, case, src, unknowns, im, n, got_names):
         ctx.disagree("blocks-two-ways", case, f"split_into_blocks: {got_names}", f"steady(return_info=True)['blocks']: {got2}")
 
 
+def simw_nonsquare_case(ctx: Ctx, batch: Batch | None, case):
+    """more unknowns than equations (see gen_simw): what split_into_blocks does there is compared with the model (unknowns, steady incidence
+    matrix, blocks or the raise), nothing is demanded of it"""
+    unknowns, im, src, steady_texts = simw_layout(case)
+    neq = im.shape[0]
+    ctx.evaluations += 1
+    ctx.count("simw:nonsquare-plan")
+    try:
+        from irispie.simultaneous import _steady
+        m = ir.Simultaneous.from_string(src, flat=case["flat"])
+        plan = ir.SteadyPlan(m)
+        if case["exo"]:
+            plan.exogenize(tuple(f"t{j}" for j in case["exo"]))
+        plan.endogenize(tuple(f"p{j}" for j in sorted(case["endo"] + [case["extra_endo"]])))
+        plan.fix((f"t{case['fix']}", ))
+        name_to_qid = m.create_name_to_qid()
+        wrt = _steady._resolve_steady_wrt(m, plan, is_flat=m.resolve_flags().is_flat)
+        sim = _steady._calculate_steady_incidence_matrix(wrt.equations, wrt.qids)
+    except Exception as e:
+        ctx.disagree("split-into-blocks-nonsquare-plan", case, f"setting up raised {e!r}", "a plan and its unknowns")
+        return
+    try:
+        hb = m.split_into_blocks(plan)
+        blocks, bad = simw_blocks_by_name([(tuple(b.equations), tuple(b.quantities)) for b in hb], unknowns, neq)
+        btext = "unmappable: " + bad if bad else "".join(
+            "[" + csv(b.eids) + "/" + csv(sorted(name_to_qid[unknowns[c]] for c in b.qids)) + "]" for b in blocks)
+        ctx.count("simw:nonsquare-plan:returns")
+    except Exception as e:
+        btext = err_kind(e)
+        ctx.count("simw:nonsquare-plan:raises")
+    req, _, _, _, _ = impl_blaze(im, list(range(neq)), list(range(im.shape[1])))
+    tokens = [sorted({name_to_qid[x] for x in _re.findall(r"\b([tpys]\d+)\b", l)}) for l in steady_texts]
+    can_exo = [name_to_qid[f"t{j}"] for j in range(case["nt"])] + [name_to_qid[f"y{j}"] for j in range(case["nm"])]
+    exo_q = [name_to_qid[f"t{j}"] for j in case["exo"]]
+    endo_q = [name_to_qid[f"p{j}"] for j in sorted(case["endo"] + [case["extra_endo"]])]
+    sreq = ("split " + ";".join(csv(t) or "-" for t in tokens) + " | " + csv(range(neq)) + " | " + csv(can_exo) + " | " + (csv(exo_q) or "-")
+            + " | " + csv(endo_q) + " | " + " | ".join(x.strip() for x in req.split("|")[-2:]))
+    sreply = "W=" + csv(wrt.qids) + ";M=" + "".join("1" if x else "0" for x in np.asarray(sim, dtype=bool).ravel()) + ";B=" + btext
+    if batch is not None:
+        batch.add(dict(case, stage="split-nonsquare"), sreq, sreply)
+
+
 def simw_case(ctx: Ctx, batch: Batch | None, case):
+    if case.get("extra_endo") is not None:
+        return simw_nonsquare_case(ctx, batch, case)
     unknowns, im, src, steady_texts = simw_layout(case)
     n = len(unknowns)
     if any(case.get("bang") or []):
